@@ -69,6 +69,10 @@ pub struct Case {
     /// current directory; 2 relative, in the sub-directory `out/`; 3 absolute, in that sub-directory. (The process
     /// works inside its scratch directory, which holds `logo.png`; `out/` holds a DIFFERENT `logo.png`.)
     pub dest: u8,
+    /// extension of the destination's file name: 0 the writer's own (svg / png); 1 the OTHER writer's; 2 the other
+    /// writer's in upper case; 3 jpg; 4 double (svg.png / png.svg); 5 empty (name ends with a dot); 6 tar.gz; 7 the
+    /// writer's own in upper case. The writer decides the content, never the name.
+    pub name: u8,
 }
 
 pub fn to_json(c: &Case) -> Value {
@@ -76,7 +80,7 @@ pub fn to_json(c: &Case) -> Value {
         Fault::ShortWrite(p) => json!({"short_write_permille": p}),
         f => json!(format!("{:?}", f)),
     };
-    json!({"build": c.build.to_json(), "svg": c.cfg.to_json(), "writer": if c.writer == Writer::Svg { "svg" } else { "png" }, "fault": fault, "dest": c.dest})
+    json!({"build": c.build.to_json(), "svg": c.cfg.to_json(), "writer": if c.writer == Writer::Svg { "svg" } else { "png" }, "fault": fault, "dest": c.dest, "name": c.name})
 }
 
 pub fn from_json(v: &Value) -> Option<Case> {
@@ -113,6 +117,7 @@ pub fn from_json(v: &Value) -> Option<Case> {
         writer: if v.get("writer")?.as_str()? == "svg" { Writer::Svg } else { Writer::Png },
         fault,
         dest: v.get("dest").and_then(|x| x.as_u64()).unwrap_or(0) as u8,
+        name: v.get("name").and_then(|x| x.as_u64()).unwrap_or(0) as u8,
     })
 }
 
@@ -280,7 +285,18 @@ pub fn check(c: &Case, obs: &mut Obs) -> Result<(), Fail> {
     obs.label(&format!("dest:{}", ["absolute", "relative_cwd", "relative_subdir", "absolute_subdir"][c.dest as usize % 4]));
     let dir = scratch_dir();
     let uniq = format!("{:016x}", crate::engine::hash_value(&to_json(c)));
-    let ext = if c.writer == Writer::Svg { "svg" } else { "png" };
+    let svg = c.writer == Writer::Svg;
+    let ext = match c.name % 8 {
+        0 => if svg { "svg" } else { "png" },
+        1 => if svg { "png" } else { "svg" },
+        2 => if svg { "PNG" } else { "SVG" },
+        3 => "jpg",
+        4 => if svg { "png.svg" } else { "svg.png" },
+        5 => "",
+        6 => "tar.gz",
+        _ => if svg { "SVG" } else { "PNG" },
+    };
+    obs.label(&format!("name_extension:{}", ["own", "other_writer", "other_writer_upper", "jpg", "double", "empty", "tar.gz", "own_upper"][c.name as usize % 8]));
     let good = match c.dest % 4 {
         0 => format!("{}/{}.{}", dir, uniq, ext),
         1 => format!("{}.{}", uniq, ext),
@@ -572,6 +588,7 @@ pub fn run(e: &'static Engine) {
                     writer,
                     fault: f.clone(),
                     dest: ((wi + fi) % 4) as u8,
+                    name: ((wi * 3 + fi) % 8) as u8,
                 });
                 jc.run_prop((wi * 100 + fi) as u64 + 1, &strat, 1, to_json, |c, o| {
                     o.label("part:enumerated_fault_classes");
@@ -594,8 +611,9 @@ pub fn run(e: &'static Engine) {
                 fault_strategy(),
                 0u8..4,
                 0usize..8,
+                prop_oneof![2 => Just(0u8), 3 => 0u8..8],
             )
-                .prop_flat_map(|(ci, fv, cfg, writer, fault, dest, img)| {
+                .prop_flat_map(|(ci, fv, cfg, writer, fault, dest, img, name)| {
                     case_in_cell(Cell::from_index(ci), Force { mode: false, level: true, version: fv }, None).prop_map(move |(b, _)| {
                         let mut cfg = cfg.clone();
                         if writer == Writer::Png {
@@ -613,7 +631,7 @@ pub fn run(e: &'static Engine) {
                             if matches!(cfg.module_color, Some(ColorSpec::Css(_))) { cfg.module_color = None; }
                             if matches!(cfg.background, Some(ColorSpec::Css(_))) { cfg.background = None; }
                         }
-                        Case { build: b, cfg, writer, fault: fault.clone(), dest }
+                        Case { build: b, cfg, writer, fault: fault.clone(), dest, name }
                     })
                 });
             jc.run_prop(1 << 20, &strat, total / shards, to_json, |c, o| {
